@@ -33,7 +33,7 @@ type ExtractCase struct {
 	N         int         `json:"n"`      // -n
 	K         int         `json:"k"`      // the k-th chunk request (1-based, arrival order) is the death point; 0 = none
 	Inplace   bool        `json:"inplace"`
-	Death     string      `json:"death"` // kill | err | strace-kill | strace-err (final_test.go)
+	Death     string      `json:"death"` // kill | err | sigint | sigterm (graceful stop while the k-th request is held) | strace-kill | strace-err (final_test.go)
 	Prior     string      `json:"prior"` // absent | empty | garbage | partial | complete
 	PriorSeed uint64      `json:"prior_seed,omitempty"`
 	PriorLen  int         `json:"prior_len,omitempty"`
@@ -68,6 +68,7 @@ type srvState struct {
 	reached   chan struct{}
 	release   chan struct{}
 	once      sync.Once
+	relOnce   sync.Once
 }
 
 var (
@@ -111,6 +112,9 @@ func newState(objs map[string][]byte, holdAt int, mode string) (prefix string, s
 	return prefix, st
 }
 
+// releaseAll lets every held request go on (once).
+func (st *srvState) releaseAll() { st.relOnce.Do(func() { close(st.release) }) }
+
 func dropState(prefix string) {
 	srvMu.Lock()
 	delete(srvStates, prefix)
@@ -146,14 +150,16 @@ func serve(w http.ResponseWriter, r *http.Request) {
 			http.NotFound(w, r)
 			return
 		}
-		if st.mode == "kill" {
+		if st.mode == "kill" || st.mode == "sig" {
 			if ord == st.holdAt {
 				st.once.Do(func() { close(st.reached) })
 			}
 			<-st.release
-			panic(http.ErrAbortHandler)
+			if st.mode == "kill" {
+				panic(http.ErrAbortHandler)
+			}
 		}
-		// mode err, requests behind the failed one: served normally
+		// mode err, requests behind the failed one, and mode sig after the signal went out: served normally
 		st.mu.Lock()
 		st.inflight++
 		st.mu.Unlock()
@@ -229,7 +235,9 @@ type procResult struct {
 
 // runDesync starts the CLI in its own process group. kill, when non-nil, is waited for together
 // with the exit of the process; if it fires first the whole group gets SIGKILL.
-func runDesync(dir string, args []string, st *srvState, wantKill bool) (res procResult, killed bool) {
+// With sig != 0 the process gets that signal instead once the request is held; as soon as the signal
+// has been taken the held requests are answered and the process is left to stop by itself.
+func runDesync(dir string, args []string, st *srvState, wantKill bool, sig syscall.Signal) (res procResult, killed bool) {
 	bin := os.Getenv("VERIF_DESYNC_BIN")
 	runtime.LockOSThread()
 	defer runtime.UnlockOSThread()
@@ -264,6 +272,22 @@ func runDesync(dir string, args []string, st *srvState, wantKill bool) (res proc
 			t.Stop()
 		}
 		st.mu.Unlock()
+		if sig != 0 {
+			syscall.Kill(pgid, sig)
+			for i := 0; i < 100 && sigPending(pgid, sig); i++ { // steering only: let the handler take it first
+				time.Sleep(5 * time.Millisecond)
+			}
+			time.Sleep(20 * time.Millisecond)
+			st.releaseAll()
+			select {
+			case werr = <-done:
+			case <-ctx.Done():
+				syscall.Kill(-pgid, syscall.SIGKILL)
+				<-done
+				infra("desync %v did not stop within %s after signal %d\n%s", args, childTimeout, sig, se.String())
+			}
+			break
+		}
 		syscall.Kill(-pgid, syscall.SIGKILL)
 		werr = <-done
 		killed = true
@@ -289,6 +313,33 @@ func runDesync(dir string, args []string, st *srvState, wantKill bool) (res proc
 		}
 	}
 	return res, killed
+}
+
+// sigPending reports whether sig is still pending (not yet taken by a handler) for pid.
+func sigPending(pid int, sig syscall.Signal) bool {
+	b, err := os.ReadFile("/proc/" + strconv.Itoa(pid) + "/status")
+	if err != nil {
+		return false
+	}
+	for _, line := range strings.Split(string(b), "\n") {
+		if strings.HasPrefix(line, "SigPnd:") || strings.HasPrefix(line, "ShdPnd:") {
+			v, err := strconv.ParseUint(strings.TrimSpace(line[7:]), 16, 64)
+			if err == nil && v&(1<<(uint(sig)-1)) != 0 {
+				return true
+			}
+		}
+	}
+	return false
+}
+
+func (c ExtractCase) signal() syscall.Signal {
+	switch c.Death {
+	case "sigint":
+		return syscall.SIGINT
+	case "sigterm":
+		return syscall.SIGTERM
+	}
+	return 0
 }
 
 func (c ExtractCase) normalise() ExtractCase {
@@ -323,7 +374,7 @@ func (c ExtractCase) normalise() ExtractCase {
 	c.NameLen = max(0, min(c.NameLen, 255))
 	c.DirDepth = max(0, min(c.DirDepth, 25))
 	switch c.Death {
-	case "err":
+	case "err", "sigint", "sigterm":
 	case "strace-kill", "strace-err":
 		c.K = 0
 		if c.When < 0 || c.Syscall == "" {
@@ -432,6 +483,9 @@ func runExtract(c ExtractCase) (o hx.Outcome) {
 	if c.straced() {
 		srvMode = "kill" // K = 0: nothing is held
 	}
+	if c.signal() != 0 {
+		srvMode = "sig"
+	}
 	prefix, st := newState(objs, c.K, srvMode)
 	defer dropState(prefix)
 	args := append(append([]string(nil), global...), "extract")
@@ -446,9 +500,9 @@ func runExtract(c ExtractCase) (o hx.Outcome) {
 		res, xt = runDesyncStrace(work, args, out, c.Death, c.Syscall, c.When, c.Errno)
 		killed = xt.Killed
 	} else {
-		res, killed = runDesync(work, args, st, c.K > 0 && c.Death == "kill")
+		res, killed = runDesync(work, args, st, c.K > 0 && (c.Death == "kill" || c.signal() != 0), c.signal())
 	}
-	close(st.release)
+	st.releaseAll()
 	st.mu.Lock()
 	for i := 0; xt != nil && st.inflight > 0 && i < 50; i++ { // handlers about to book their response (classification only)
 		t := time.AfterFunc(20*time.Millisecond, st.cond.Broadcast)
@@ -456,6 +510,7 @@ func runExtract(c ExtractCase) (o hx.Outcome) {
 		t.Stop()
 	}
 	served, nreq := st.served, len(st.reqs)
+	firstReqs := append([]string(nil), st.reqs...)
 	allServed := len(st.servedIDs) >= len(distinct) // every chunk the assembly has to fetch went out completely
 	st.mu.Unlock()
 	died := killed || res.Exit != 0
@@ -505,6 +560,12 @@ func runExtract(c ExtractCase) (o hx.Outcome) {
 	}
 	if c.N > 1 {
 		o.Class("extract:n>1")
+	}
+	if c.signal() != 0 && died && !res.Signaled { // the handler took the signal and the run stopped by itself with an error
+		o.Class("extract:stopped-by-signal")
+		if len(after.Data) > 0 && !bytes.Equal(after.Data, blob) {
+			o.Class("extract:stopped-by-signal:partial-file-kept")
+		}
 	}
 	midway := died && served >= 1 && served < len(distinct)
 	if midway {
@@ -630,11 +691,38 @@ func runExtract(c ExtractCase) (o hx.Outcome) {
 	if sha && np > 0 { // the re-run has something it must not fetch again
 		o.Class("extract:digest=sha256:inplace-rerun")
 	}
+	// ... and which IDs had the run certainly written before it was stopped, whatever became of the
+	// file? A single worker goes through the index in order and asks for a chunk only after
+	// everything in front of it is in the file (pwrite returned: it survives the process), so when
+	// the k-th request arrived every ID all of whose positions lie in front of that chunk's first
+	// position was complete. (More workers: the order is not known, the file left behind is all there is.)
+	written := map[string]bool{}
+	if c.N == 1 && !c.straced() && c.K >= 2 && len(firstReqs) >= c.K && len(positions[firstReqs[c.K-1]]) > 0 {
+		front := positions[firstReqs[c.K-1]][0].start
+		for id, ps := range positions {
+			all := id != nullID
+			for _, p := range ps {
+				if p.end > front {
+					all = false
+				}
+			}
+			if all {
+				written[id] = true
+			}
+		}
+	}
+	obs["ids_written_before_stop"] = len(written)
+	if len(written) > 0 {
+		o.Class("extract:rerun-after-known-writes")
+		if (c.Prior == "absent" || c.Prior == "empty") && c.Death != "kill" {
+			o.Class("extract:inplace:new-path:err-midway:rerun")
+		}
+	}
 	prefix2, st2 := newState(objs, 0, "kill")
 	defer dropState(prefix2)
 	args2 := append(append([]string(nil), global...), "extract", "-k", "-n", strconv.Itoa(c.N), "-s", "http://"+srvAddr+"/"+prefix2+"/", index, out)
-	res2, _ := runDesync(work, args2, st2, false)
-	close(st2.release)
+	res2, _ := runDesync(work, args2, st2, false, 0)
+	st2.releaseAll()
 	final := statFile(out)
 	obs["rerun_stderr"] = tail(res2.Stderr, 1500)
 	if res2.Exit != 0 || res2.Signaled {
@@ -649,6 +737,11 @@ func runExtract(c ExtractCase) (o hx.Outcome) {
 	obs["rerun_requests"] = len(re)
 	seen := map[string]bool{}
 	for _, id := range re {
+		if written[id] && !present[id] && !seen[id] {
+			seen[id] = true
+			o.Fail("C08:extract:refetched-written-chunk", "re-run requested chunk %s although the stopped run (death=%s at request %d, n=1, prior %s) had written all %d position(s) of it before it asked for its %d-th chunk; after the stop the destination %s",
+				id[:12], c.Death, c.K, c.Prior, len(positions[id]), c.K, map[bool]string{true: fmt.Sprintf("held %d bytes", after.Size), false: "did not exist"}[after.Exists])
+		}
 		if present[id] && !seen[id] {
 			seen[id] = true
 			o.Fail("C08:extract:refetched-present-chunk", "re-run requested chunk %s although all %d position(s) of it already held the right bytes in the file left behind (death=%s k=%d n=%d)",
